@@ -1142,6 +1142,108 @@ def part_bookkeeping(run, rng, be, count, only=None):
         run.find("bookkeeping:duplicate_name", "model and implementation disagree on rejecting a duplicate register name", {"implementation_rejects": rejected})
     run.oblige("correspondence:circuit_add_bookkeeping", ok, "correspondence")
 
+
+# ------------------------------------------------------------------ part H: bit-flip measurement noise (p > 0)
+def bitflip_case(run, be, tag, i, executions=1):
+    """one circuit object with measurement bit-flip noise, `executions` results, all eight views of
+    every result in random order (frequencies possibly first).  Deterministic maps (p in {0,1} per
+    qubit) are compared exactly with the flipped noiseless draws; fractional maps are judged for
+    consistency only.  Returns (info, [(label, coq bool)])."""
+    from qibo import Circuit, gates
+    crng = random.Random(f"{run.seed}:{tag}:{i}")
+    n = crng.randint(1, 3)
+    regs = random_registers(crng, n)
+    Q = [q for reg in regs for q in reg]
+    deterministic = (i % 3 != 2)
+    if deterministic:
+        flipped = [q for q in Q if crng.random() < 0.5] or [Q[0]]
+        pmap = {q: (1.0 if q in flipped else 0.0) for q in Q}
+    else:
+        flipped = None
+        pmap = {q: crng.choice([0.0, 0.25, 0.5, 0.75]) for q in Q}
+        if sum(pmap.values()) == 0:
+            pmap[Q[0]] = 0.5
+    c = Circuit(n)
+    for reg in regs:
+        c.add(gates.M(*reg, p0={q: pmap[q] for q in reg}))
+    info = {"part": tag, "case": i, "n": n, "registers": regs, "bitflip_p0=p1": {str(q): pmap[q] for q in Q}, "executions": []}
+    items = []
+    cfg = f"(mkcfg {n}%nat {nat_list_list(regs)})"
+    results = []
+    for e in range(executions):
+        ints, j = dyadic_state(crng, n)
+        ns = crng.randint(1, 8)
+        results.append((c(initial_state=np.array(ints, dtype=complex) / 2 ** j, nshots=ns), ns))
+        info["executions"].append({"state_times_2^j": [str(a) for a in ints], "j": j, "nshots": ns})
+    order = list(range(executions))
+    crng.shuffle(order)
+    for e in order:
+        r, ns = results[e]
+        draws = []
+        orig = be.sample_shots
+
+        def shots(probabilities, nshots_):
+            out = orig(probabilities, nshots_)
+            draws.append([int(v) for v in np.asarray(out).tolist()])
+            return out
+        be.sample_shots = shots
+        try:
+            be.set_seed(crng.randrange(2 ** 31))
+            views = [(kind, b, rg) for kind in ("samples", "freqs") for b in (True, False) for rg in (True, False)]
+            crng.shuffle(views)
+            outs = []
+            for kind, b, rg in views:
+                v = r.samples(binary=b, registers=rg) if kind == "samples" else r.frequencies(binary=b, registers=rg)
+                outs.append((kind, b, rg, v))
+            S = [int(x) for x in np.asarray(r.samples(binary=False)).tolist()]
+        finally:
+            del be.sample_shots
+        ex = info["executions"][e]
+        ex.update({"view_order": [f"{k}:{b}:{rg}" for k, b, rg in views], "noiseless_draws": draws, "samples": S})
+        items.append((f"r{e}:count", f"(length {nat_list(S)} =? {ns})%nat"))
+        if len(draws) != 1:
+            items.append((f"r{e}:one_draw", "false"))
+        elif deterministic:
+            mask = bits_lit([1 if q in flipped else 0 for q in Q])
+            items.append((f"r{e}:flips", f"list_eqb Nat.eqb (map (flip_shot {len(Q)}%nat {mask}) {nat_list(draws[0])}) {nat_list(S)}"))
+        for kind, b, rg, v in outs:
+            op = (f"Samples 0%nat {b2s(b)} {b2s(rg)} (@nil nat)" if kind == "samples" else f"Freqs 0%nat {b2s(b)} {b2s(rg)} (@nil (nat * nat))")
+            items.append((f"r{e}:{kind}:{b}:{rg}", f"explainsb {cfg} (@nil Z) {nat_list(S)} ({op}) ({out_term(kind, b, rg, v, c.measurements)})"))
+    return info, items
+
+
+def part_bitflip(run, rng, be, count, tag="bitflip", executions=1, only=None):
+    all_items, meta = [], []
+    for i in (range(count) if only is None else only):
+        try:
+            info, items = bitflip_case(run, be, tag, i, executions)
+        except Exception as e:  # noqa
+            run.find(f"{tag}:raised", "reading the views of a result with bit-flip noise raised: " + repr(e)[:200], {"part": tag, "case": i})
+            continue
+        run.case({tag: info}, True)
+        if i == 0:
+            run.sample(info)
+        for label, term in items:
+            all_items.append((f"{tag}{i}:{label}", term))
+            meta.append((f"{tag}{i}:{label}", label, info))
+    res = {}
+    for ci in range(0, len(all_items), 400):
+        part, _ = run.coq_bools(f"{tag}_{ci // 400}.v", HEADER, all_items[ci:ci + 400], timeout=900)
+        if part is None:
+            run.find(f"{tag}:coq-failed", "generated file did not compile", {}, concrete=False)
+            return
+        res.update(part)
+    ok = True
+    for label, short, info in meta:
+        if not res[label]:
+            ok = False
+            kind = short.split(":")[1]
+            what = {"count": "number of noisy samples differs from nshots", "flips": "noisy samples are not the noiseless draws with exactly the bits of the p=1 qubits flipped (bit-flip map applied to the wrong qubits / bit order)",
+                    "one_draw": "unexpected number of sampling calls"}.get(kind, "a view of a result with bit-flip noise is not the same data as its own samples")
+            run.find(f"{tag}:{kind if kind in ('count', 'flips', 'one_draw') else 'views'}", what, dict(info, failed=short))
+    if ok and not any(f.key.startswith(tag + ":") for f in run.findings):
+        run.oblige(f"test:{tag}_views_consistent", True, "test")
+
 # ------------------------------------------------------------------ main
 RULE = ("probabilities: random n<=5, random duplicate-free ordered qubit lists (biased to unsorted), Gaussian-integer states with exact moduli / "
         "integer density matrices, through the backend function and through Circuit execution; non-trivial = list differs from range(n) and "
@@ -1154,13 +1256,15 @@ RULE = ("probabilities: random n<=5, random duplicate-free ordered qubit lists (
         "specification explainsb against its own samples.  bookkeeping: X-prepared basis states, 2-4 measurement registers (default and custom "
         "names), then 1-3 later gates (X/Y/Z/CNOT/CZ/SWAP, 65% touching two registers at once), optional re-measurement of freed qubits and "
         "further gates; collapse flags / names / circuit.measurements / has_collapse compared structurally with the model of Circuit.add, and "
-        "every shot's recorded and final register outcomes compared with the exact per-shot model.")
+        "every shot's recorded and final register outcomes compared with the exact per-shot model.  bitflip: measurement registers with "
+        "bit-flip maps (2/3 deterministic p in {0,1} per qubit: noisy samples = noiseless draws with exactly those bits flipped, exact; 1/3 "
+        "fractional p: consistency only), all eight views in random order judged by the Coq oracle against the result's own samples.")
 
 
 def budgets(tier):
     if tier == "thorough":
-        return {"probs": 480, "conv": 200, "views": 900, "collapse": 300, "direct": 240, "symbols": 60, "repeated": 120, "bookkeeping": 600}
-    return {"probs": 150, "conv": 60, "views": 160, "collapse": 70, "direct": 60, "symbols": 20, "repeated": 30, "bookkeeping": 120}
+        return {"probs": 480, "conv": 200, "views": 900, "collapse": 300, "direct": 240, "symbols": 60, "repeated": 120, "bookkeeping": 600, "bitflip": 300}
+    return {"probs": 150, "conv": 60, "views": 160, "collapse": 70, "direct": 60, "symbols": 20, "repeated": 30, "bookkeeping": 120, "bitflip": 60}
 
 
 def static_obligations(run, theory):
@@ -1195,7 +1299,7 @@ def main(run):
     run.trusted += ["Coq 8.16.1 kernel, vm_compute",
                     "numpy semantics of reshape/transpose/sum(axis)/einsum('abab->a')/expand_dims/concatenate as transcribed in C03/ModelProbs.v and C03/ModelCollapse.v (tensors as functions on bit lists)",
                     "harness/c03.py: serialisation of inputs/outputs, recording of the implementation's draws"]
-    run.assumptions += ["exact arithmetic (float rounding not modelled); bit-flip probabilities p = 0",
+    run.assumptions += ["exact arithmetic (float rounding not modelled); the state-machine theorems are for bit-flip probabilities p = 0 (p > 0 is covered at test level by the bitflip part)",
                         "np.random.choice / np.random.shuffle / sample_frequencies are oracles: only their contract (count, support, permutation) is assumed, and checked on every draw"]
     names = static_obligations(run, "C03/Props")
     if run.tier == "thorough":
@@ -1212,6 +1316,7 @@ def main(run):
     part_symbols(run, rng, be, b["symbols"])
     part_repeated(run, rng, be, b["repeated"])
     part_bookkeeping(run, rng, be, b["bookkeeping"])
+    part_bitflip(run, rng, be, b["bitflip"])
     return run.finish(rule=RULE)
 
 
@@ -1231,6 +1336,8 @@ def replay(run, data):
         part_collapse_single(run, be, cases)
     elif part == "symbols":
         part_symbols_range(run, be, [i])
+    elif part == "bitflip":
+        part_bitflip(run, None, be, 0, only=[i])
     elif part == "bookkeeping":
         part_bookkeeping(run, None, be, 0, only=[i])
     elif part == "repeated":
